@@ -271,14 +271,16 @@ def _run_segment(seg: Dict[str, Any], out: Dict[str, Any]) -> None:
                 gfile = os.path.join(root, "graph_%d.dot" % len(out["steps"]))
                 kwargs["dds_export_graph"] = gfile
             try:
-                if st["style"] == "direct":
-                    r = fun(*args, **kwargs)
-                elif st["style"] == "eval":
-                    r = dds.eval(fun, *args, **kwargs)
-                elif st["style"] == "keep":
-                    r = dds.keep(st["root_path"], fun, *args, **kwargs)
-                else:
-                    raise ValueError(st["style"])
+                from .common import Watchdog
+                with Watchdog(int(os.environ.get("VERIF_STEP_TIMEOUT", "120"))):
+                    if st["style"] == "direct":
+                        r = fun(*args, **kwargs)
+                    elif st["style"] == "eval":
+                        r = dds.eval(fun, *args, **kwargs)
+                    elif st["style"] == "keep":
+                        r = dds.keep(st["root_path"], fun, *args, **kwargs)
+                    else:
+                        raise ValueError(st["style"])
                 obs["result"] = _norm(r)
                 obs["err"] = None
             except BaseException as e:
@@ -297,7 +299,9 @@ def _run_segment(seg: Dict[str, Any], out: Dict[str, Any]) -> None:
             res = {}
             for p in st["paths"]:
                 try:
-                    res[p] = {"value": _norm(dds.load(p))}
+                    from .common import Watchdog
+                    with Watchdog(60):
+                        res[p] = {"value": _norm(dds.load(p))}
                 except BaseException as e:
                     res[p] = {"err": _exc_info(e)}
             obs["loads"] = res
